@@ -15,7 +15,7 @@ from .machine import (
 )
 
 FE = st.sampled_from(["wsgi", "aio"])
-PREFIXES = ["/", "/dav/", "/a/b/"]
+PREFIXES = ["/", "/dav/", "/a/b/", "/us/"]  # the last one shares characters with the first path segment behind it
 
 DEFAULT_WEIGHTS = {
     "PUT": 10,
